@@ -38,6 +38,17 @@ pub fn alphabet() -> Alphabet {
     Alphabet { frames, decodable }
 }
 
+/// id offset of the second metadata entry of a reception
+pub const SECOND: u64 = 100_000;
+
+#[derive(Clone, Copy, Debug, PartialEq, Eq)]
+pub struct Variant {
+    /// timestamps are base_s seconds + the history's milliseconds (0, or a realistic Unix time)
+    pub base_s: u64,
+    /// receptions of receiver 1 carry two metadata entries
+    pub multi: bool,
+}
+
 #[derive(Clone, Debug, PartialEq, Eq, PartialOrd, Ord)]
 pub struct Rec {
     pub step: usize,
@@ -50,7 +61,7 @@ pub struct Rec {
 /// Run one history through the real task. Reception i carries id i in
 /// metadata.nanoseconds. Returns the records in emission order, each with the
 /// index of the arrival after which it came out (n = after end of input).
-pub fn run_real(al: &Alphabet, hist: &[Arr], w: u32) -> Result<Vec<Rec>, String> {
+pub fn run_real(al: &Alphabet, hist: &[Arr], w: u32, var: Variant) -> Result<Vec<Rec>, String> {
     guarded(|| {
         let n = hist.len();
         let (tx_in, rx_in) = tokio::sync::mpsc::channel::<TimedMessage>(n + 1);
@@ -63,7 +74,7 @@ pub fn run_real(al: &Alphabet, hist: &[Arr], w: u32) -> Result<Vec<Rec>, String>
             while let Ok(m) = rx_out.try_recv() {
                 out.push(Rec {
                     step,
-                    ts_ms: (m.timestamp * 1e3).round() as u64,
+                    ts_ms: ((m.timestamp * 1e3).round() as u64).wrapping_sub(var.base_s * 1000),
                     ids: m.metadata.iter().map(|x| x.nanoseconds.unwrap_or(u64::MAX)).collect(),
                     decoded: m.message.is_some(),
                     frame: m.frame,
@@ -72,14 +83,13 @@ pub fn run_real(al: &Alphabet, hist: &[Arr], w: u32) -> Result<Vec<Rec>, String>
         };
         let mut done = false;
         for (i, a) in hist.iter().enumerate() {
-            let t = a.ms as f64 / 1e3;
-            let m = TimedMessage {
-                timestamp: t,
-                frame: al.frames[a.frame as usize].clone(),
-                message: None,
-                metadata: vec![SensorMetadata { system_timestamp: t, gnss_timestamp: None, nanoseconds: Some(i as u64), rssi: None, serial: a.rx as u64 + 1, name: None }],
-                decode_time: None,
-            };
+            let t = var.base_s as f64 + a.ms as f64 / 1e3;
+            let mut metadata = vec![SensorMetadata { system_timestamp: t, gnss_timestamp: None, nanoseconds: Some(i as u64), rssi: None, serial: a.rx as u64 + 1, name: None }];
+            if var.multi && a.rx == 1 {
+                // a reception that already carries two metadata entries (e.g. an upstream aggregator)
+                metadata.push(SensorMetadata { system_timestamp: t, gnss_timestamp: None, nanoseconds: Some(i as u64 + SECOND), rssi: None, serial: 9, name: None });
+            }
+            let m = TimedMessage { timestamp: t, frame: al.frames[a.frame as usize].clone(), message: None, metadata, decode_time: None };
             tx_in.try_send(m).map_err(|_| ()).expect("input channel has room");
             for _ in 0..2 {
                 if !done && fut.as_mut().poll(&mut cx).is_ready() {
@@ -104,7 +114,7 @@ pub fn run_real(al: &Alphabet, hist: &[Arr], w: u32) -> Result<Vec<Rec>, String>
 
 /// R-DEDUP: open groups in a Vec; an arrival joins the open group of its frame
 /// or opens one; then every group whose first arrival + w <= this arrival closes.
-pub fn run_model(al: &Alphabet, hist: &[Arr], w: u32) -> Vec<Rec> {
+pub fn run_model(al: &Alphabet, hist: &[Arr], w: u32, var: Variant) -> Vec<Rec> {
     struct G {
         frame: u8,
         first_ms: u64,
@@ -113,9 +123,13 @@ pub fn run_model(al: &Alphabet, hist: &[Arr], w: u32) -> Vec<Rec> {
     let mut open: Vec<G> = Vec::new();
     let mut out = Vec::new();
     for (i, a) in hist.iter().enumerate() {
+        let mut mine = vec![i as u64];
+        if var.multi && a.rx == 1 {
+            mine.push(i as u64 + SECOND);
+        }
         match open.iter_mut().find(|g| g.frame == a.frame) {
-            Some(g) => g.ids.push(i as u64),
-            None => open.push(G { frame: a.frame, first_ms: a.ms, ids: vec![i as u64] }),
+            Some(g) => g.ids.extend(mine),
+            None => open.push(G { frame: a.frame, first_ms: a.ms, ids: mine }),
         }
         let mut k = 0;
         while k < open.len() {
@@ -133,8 +147,33 @@ pub fn run_model(al: &Alphabet, hist: &[Arr], w: u32) -> Vec<Rec> {
 }
 
 /// The property's invariants on one execution. Returns (class, text).
-pub fn judge(al: &Alphabet, hist: &[Arr], w: u32, out: &[Rec]) -> Option<(String, String)> {
+pub fn judge(al: &Alphabet, hist: &[Arr], w: u32, var: Variant, out_raw: &[Rec]) -> Option<(String, String)> {
     let n = hist.len();
+    // reduce metadata ids to member arrivals; every member must contribute exactly its own entries, in order
+    let mut out_vec: Vec<Rec> = Vec::with_capacity(out_raw.len());
+    for r in out_raw {
+        let mut members: Vec<u64> = Vec::new();
+        for id in &r.ids {
+            let a = id % SECOND;
+            if members.last() != Some(&a) {
+                members.push(a);
+            }
+        }
+        let mut expect: Vec<u64> = Vec::new();
+        for a in &members {
+            expect.push(*a);
+            if var.multi && (*a as usize) < n && hist[*a as usize].rx == 1 {
+                expect.push(*a + SECOND);
+            }
+        }
+        if expect != r.ids {
+            return Some(("metadata-entries".into(), format!("record carries metadata entries {:?}, its members {:?} brought {:?}", r.ids, members, expect)));
+        }
+        let mut r2 = r.clone();
+        r2.ids = members;
+        out_vec.push(r2);
+    }
+    let out: &[Rec] = &out_vec;
     let mut seen = vec![0u32; n];
     let nondecreasing = hist.windows(2).all(|p| p[0].ms <= p[1].ms);
     for r in out {
@@ -200,26 +239,26 @@ pub fn judge(al: &Alphabet, hist: &[Arr], w: u32, out: &[Rec]) -> Option<(String
     None
 }
 
-fn hist_json(hist: &[Arr], w: u32) -> Value {
-    json!({"window_ms": w, "history": hist.iter().map(|a| json!([a.frame, a.rx, a.ms])).collect::<Vec<_>>()})
+fn hist_json(hist: &[Arr], w: u32, var: Variant) -> Value {
+    json!({"window_ms": w, "base_s": var.base_s, "multi_metadata": var.multi, "history": hist.iter().map(|a| json!([a.frame, a.rx, a.ms])).collect::<Vec<_>>()})
 }
 
-fn check_one(al: &Alphabet, hist: &[Arr], w: u32, rep: &Report, agree: &AtomicU64, disagree: &AtomicU64, oc: &mut [u64; 8]) {
-    match run_real(al, hist, w) {
-        Err(p) => rep.violation(&format!("panic:{}", panic_class(&p)), format!("deduplicate_messages panicked: {p}"), hist_json(hist, w)),
+fn check_one(al: &Alphabet, hist: &[Arr], w: u32, var: Variant, rep: &Report, agree: &AtomicU64, disagree: &AtomicU64, oc: &mut [u64; 8]) {
+    match run_real(al, hist, w, var) {
+        Err(p) => rep.violation(&format!("panic:{}", panic_class(&p)), format!("deduplicate_messages panicked: {p}"), hist_json(hist, w, var)),
         Ok(out) => {
             oc[out.len().min(7)] += 1;
-            if let Some((class, what)) = judge(al, hist, w, &out) {
-                rep.violation(&class, what, hist_json(hist, w));
+            if let Some((class, what)) = judge(al, hist, w, var, &out) {
+                rep.violation(&class, what, hist_json(hist, w, var));
             }
             let mut a: Vec<(Vec<u8>, u64, Vec<u64>)> = out.iter().map(|r| (r.frame.clone(), r.ts_ms, r.ids.clone())).collect();
-            let mut b: Vec<(Vec<u8>, u64, Vec<u64>)> = run_model(al, hist, w).iter().map(|r| (r.frame.clone(), r.ts_ms, r.ids.clone())).collect();
+            let mut b: Vec<(Vec<u8>, u64, Vec<u64>)> = run_model(al, hist, w, var).iter().map(|r| (r.frame.clone(), r.ts_ms, r.ids.clone())).collect();
             a.sort();
             b.sort();
             if a == b {
                 agree.fetch_add(1, Ordering::Relaxed);
             } else if disagree.fetch_add(1, Ordering::Relaxed) == 0 {
-                rep.warn(format!("reference model and implementation group differently on {} (not a verdict: only the property's invariants decide)", hist_json(hist, w)));
+                rep.warn(format!("reference model and implementation group differently on {} (not a verdict: only the property's invariants decide)", hist_json(hist, w, var)));
             }
         }
     }
@@ -227,7 +266,8 @@ fn check_one(al: &Alphabet, hist: &[Arr], w: u32, rep: &Report, agree: &AtomicU6
 
 /// Enumerate all histories of exactly `len` arrivals over the symbol list,
 /// sharded by the first two symbols.
-fn explore(al: &Alphabet, syms: &[Arr], len: usize, windows: &[u32], monotone_only: bool, ctx: &Ctx, rep: &Report, agree: &AtomicU64, disagree: &AtomicU64, outcomes: &std::sync::Mutex<[u64; 8]>) -> (u64, u64) {
+#[allow(clippy::too_many_arguments)]
+fn explore(al: &Alphabet, syms: &[Arr], len: usize, windows: &[u32], monotone_only: bool, var: Variant, ctx: &Ctx, rep: &Report, agree: &AtomicU64, disagree: &AtomicU64, outcomes: &std::sync::Mutex<[u64; 8]>) -> (u64, u64) {
     let total = AtomicU64::new(0);
     let grouped = AtomicU64::new(0);
     let k = syms.len();
@@ -252,7 +292,7 @@ fn explore(al: &Alphabet, syms: &[Arr], len: usize, windows: &[u32], monotone_on
             if !monotone_only || mono {
                 let shares = (0..len).any(|a| (0..a).any(|b| hist[a].frame == hist[b].frame));
                 for w in windows {
-                    check_one(al, &hist, *w, rep, agree, disagree, &mut oc);
+                    check_one(al, &hist, *w, var, rep, agree, disagree, &mut oc);
                     cnt += 1;
                     if shares {
                         grp += 1;
@@ -315,42 +355,61 @@ pub fn run(ctx: &Ctx, rep: &Report) {
     rep.set_rule("all arrival histories (frame, receiver, timestamp) up to a length, for each window length; non-trivial = histories in which at least two receptions carry the same frame");
     rep.assume("timestamps are taken from a grid that is exact in binary floating point, so milliseconds are unambiguous");
     rep.assume("groups still open when the input ends need not be emitted (the property speaks of closed windows)");
+    rep.assume("a reception may carry several metadata entries; they stay together, in order");
     let agree = AtomicU64::new(0);
     let disagree = AtomicU64::new(0);
     let outcomes = std::sync::Mutex::new([0u64; 8]);
     let mut total = 0u64;
     let mut nontriv = 0u64;
     let mut bound = Vec::new();
-    // plan: (name, frames, receivers, stamps, windows, max length, monotone only)
-    type Plan = (&'static str, Vec<u8>, Vec<u8>, Vec<u64>, Vec<u32>, usize, bool);
+    const UNIX: u64 = 1_700_000_000;
+    // realistic Unix timestamps must be exact as well
+    for ms in all_stamps {
+        let t = UNIX as f64 + ms as f64 / 1e3;
+        if (t * 1e3) as u128 != (UNIX * 1000 + ms) as u128 {
+            rep.violation("harness:stamp-not-exact", format!("{UNIX} s + {ms} ms is not exact in floating point"), json!({}));
+            return;
+        }
+    }
+    let plain = Variant { base_s: 0, multi: false };
+    let unix = Variant { base_s: UNIX, multi: false };
+    let multi = Variant { base_s: UNIX, multi: true };
+    const NEVER: u32 = 4_000_000_000; // a window that never closes
+    // plan: (name, frames, receivers, stamps, windows, max length, monotone only, variant)
+    type Plan = (&'static str, Vec<u8>, Vec<u8>, Vec<u64>, Vec<u32>, usize, bool, Variant);
     let plans: Vec<Plan> = if ctx.thorough() {
         vec![
-            ("2 frames+undecodable, any order", vec![0, 1, 3], vec![0, 1], vec![0, 250, 450, 500, 1000], vec![0, 250, 450, 500], 5, false),
-            ("3 frames, non-decreasing", vec![0, 1, 2], vec![0, 1], all_stamps.to_vec(), vec![0, 250, 450, 500], 5, true),
-            ("2 frames, dense stamps, any order", vec![0, 1], vec![0, 1], vec![0, 125, 250, 375, 449, 450, 451, 500, 625, 700, 900], vec![450], 4, false),
-            ("1 frame + undecodable, any order, deep", vec![0, 3], vec![0], vec![0, 250, 450, 500, 1000], vec![0, 250, 450], 7, false),
+            ("2 frames+undecodable, any order", vec![0, 1, 3], vec![0, 1], vec![0, 250, 450, 500, 1000], vec![0, 250, 450, 500], 5, false, plain),
+            ("3 frames, non-decreasing", vec![0, 1, 2], vec![0, 1], all_stamps.to_vec(), vec![0, 250, 450, 500], 5, true, plain),
+            ("2 frames, dense stamps, any order", vec![0, 1], vec![0, 1], vec![0, 125, 250, 375, 449, 450, 451, 500, 625, 700, 900], vec![450], 4, false, plain),
+            ("1 frame + undecodable, any order, deep", vec![0, 3], vec![0], vec![0, 250, 450, 500, 1000], vec![0, 250, 450, NEVER], 7, false, plain),
+            ("Unix-time stamps: 2 frames+undecodable, any order", vec![0, 1, 3], vec![0, 1], vec![0, 250, 450, 500, 1000], vec![0, 250, 450], 5, false, unix),
+            ("Unix-time stamps, two metadata entries on receiver 2: 3 frames, non-decreasing", vec![0, 1, 2], vec![0, 1], vec![0, 250, 450, 500, 900, 10_000], vec![250, 450], 5, true, multi),
+            ("3 receivers, 2 frames, any order", vec![0, 1], vec![0, 1, 2], vec![0, 250, 450, 1000], vec![0, 450], 5, false, multi),
         ]
     } else {
         vec![
-            ("2 frames+undecodable, any order", vec![0, 1, 3], vec![0, 1], vec![0, 250, 450, 500, 1000], vec![0, 250, 450], 4, false),
-            ("3 frames, non-decreasing", vec![0, 1, 2], vec![0, 1], vec![0, 250, 450, 500, 900, 10_000], vec![250, 450], 4, true),
-            ("1 frame + undecodable, any order, deep", vec![0, 3], vec![0], vec![0, 250, 450, 1000], vec![0, 450], 6, false),
+            ("2 frames+undecodable, any order", vec![0, 1, 3], vec![0, 1], vec![0, 250, 450, 500, 1000], vec![0, 250, 450], 4, false, plain),
+            ("3 frames, non-decreasing", vec![0, 1, 2], vec![0, 1], vec![0, 250, 450, 500, 900, 10_000], vec![250, 450], 4, true, plain),
+            ("1 frame + undecodable, any order, deep", vec![0, 3], vec![0], vec![0, 250, 450, 1000], vec![0, 450, NEVER], 6, false, plain),
+            ("Unix-time stamps: 2 frames+undecodable, any order", vec![0, 1, 3], vec![0, 1], vec![0, 250, 450, 500, 1000], vec![0, 450], 4, false, unix),
+            ("Unix-time stamps, two metadata entries on receiver 2: 3 frames, non-decreasing", vec![0, 1, 2], vec![0, 1], vec![0, 250, 450, 500, 10_000], vec![250, 450], 4, true, multi),
         ]
     };
-    for (name, frames, rxs, stamps, windows, maxlen, mono) in plans {
+    for (name, frames, rxs, stamps, windows, maxlen, mono, var) in plans {
         let syms = symbols(&frames, &rxs, &stamps);
         let mut part_total = 0u64;
         for len in 1..=maxlen {
-            let (t, g) = explore(&al, &syms, len, &windows, mono, ctx, rep, &agree, &disagree, &outcomes);
+            let (t, g) = explore(&al, &syms, len, &windows, mono, var, ctx, rep, &agree, &disagree, &outcomes);
             part_total += t;
             nontriv += g;
         }
         total += part_total;
-        rep.part(name, part_total, json!({"symbols": syms.len(), "max_len": maxlen, "windows_ms": windows, "stamps_ms": stamps}));
+        rep.part(name, part_total, json!({"symbols": syms.len(), "max_len": maxlen, "windows_ms": windows, "stamps_ms": stamps, "base_s": var.base_s, "multi_metadata": var.multi}));
         bound.push(format!("{name}: length <= {maxlen} over {} symbols x {} windows", syms.len(), windows.len()));
     }
-    rep.sample(hist_json(&[Arr { frame: 0, rx: 0, ms: 0 }, Arr { frame: 0, rx: 1, ms: 250 }, Arr { frame: 1, rx: 0, ms: 450 }, Arr { frame: 0, rx: 0, ms: 500 }], 450));
-    rep.sample(json!({"emitted_for_sample": run_real(&al, &[Arr { frame: 0, rx: 0, ms: 0 }, Arr { frame: 0, rx: 1, ms: 250 }, Arr { frame: 1, rx: 0, ms: 450 }, Arr { frame: 0, rx: 0, ms: 500 }], 450).map(|v| v.iter().map(|r| json!({"after_arrival": r.step, "timestamp_ms": r.ts_ms, "receptions": r.ids})).collect::<Vec<_>>()).unwrap_or_default()}));
+    rep.sample(hist_json(&[Arr { frame: 0, rx: 0, ms: 0 }, Arr { frame: 0, rx: 1, ms: 250 }, Arr { frame: 1, rx: 0, ms: 450 }, Arr { frame: 0, rx: 0, ms: 500 }], 450, multi));
+    rep.sample(json!({"emitted_for_sample": run_real(&al, &[Arr { frame: 0, rx: 0, ms: 0 }, Arr { frame: 0, rx: 1, ms: 250 }, Arr { frame: 1, rx: 0, ms: 450 }, Arr { frame: 0, rx: 0, ms: 500 }], 450, multi).map(|v| v.iter().map(|r| json!({"after_arrival": r.step, "timestamp_ms": r.ts_ms, "receptions": r.ids})).collect::<Vec<_>>()).unwrap_or_default()}));
     let oc = outcomes.lock().unwrap();
     for (i, c) in oc.iter().enumerate() {
         if *c > 0 {
@@ -375,7 +434,8 @@ pub fn replay(w: &Value, rep: &Report) {
     let agree = AtomicU64::new(0);
     let disagree = AtomicU64::new(0);
     let mut oc = [0u64; 8];
-    check_one(&al, &hist, win, rep, &agree, &disagree, &mut oc);
+    let var = Variant { base_s: w["base_s"].as_u64().unwrap_or(0), multi: w["multi_metadata"].as_bool().unwrap_or(false) };
+    check_one(&al, &hist, win, var, rep, &agree, &disagree, &mut oc);
     rep.trans(1);
     rep.state(1);
     rep.sample(w.clone());
